@@ -513,7 +513,13 @@ func (r *seqRun) execSeek(s seekSpec) (got, drained []pair) {
 		r.store(s.layer).Seek(rng, func(k, v []byte) bool { return add(clone(k), v) })
 	case viaDaoSeek:
 		r.stack[s.layer].d.Seek(int32(s.id), storage.SeekRange{Prefix: s.sub, Start: s.start, Backwards: s.back, SearchDepth: s.depth},
-			func(k, v []byte) bool { return add(concat(s.prefix, k), v) })
+			func(k, v []byte) bool {
+				// the callback works with the same DAO meanwhile, as contract destruction and the native contracts'
+				// iterations do (another contract's item: the DAO's reusable key buffer is rewritten)
+				d := r.stack[s.layer].d
+				_ = d.GetStorageItem(int32(s.id)^1, k)
+				return add(concat(s.prefix, k), v)
+			})
 		r.out.Probes["dao_seek"]++
 	case viaSeekAsync, viaDaoAsync:
 		ctx, cancel := context.WithCancel(context.Background())
